@@ -17,7 +17,7 @@ CLAIMS = {
          "one unit either side and random interior prices; thorough tier enumerates all 887273 ticks (exhaustive=true there)",
          "a contract over a pure function: the specification contributes the oracle, not exploration", "4 C09"),
  "C03": ("TLC model checking of SwapBounds as an action property on the toy instance + trace validation of every successful swap (v1, v2, "
-         "transfer-fee mints) of recorded histories against SwapBounds evaluated on balance deltas", "as C01", "4 C03"),
+         "transfer-fee mints) of recorded histories against SwapBounds evaluated on balance deltas; toy instance also with explicit price limits (inside / exactly on a tick) and real slippage thresholds (MC_Limits); two-hop bounds per leg", "as C01", "4 C03"),
  "C04": ("spec -> impl replay of an authority matrix + trace validation: every privileged instruction (both dispatchers) of a prepared world is probed on copies of the bank with "
          "unsigned / foreign / other-authority / delegate 0,1,2 / emptied-token-account / coherent-foreign-(config,authority) variants; TLC checks ok => Guard (module WpIface: the authority "
          "recorded in the abstract state signed), base instructions succeed, failures are atomic; toy instance: OwnerSigned",
@@ -32,7 +32,7 @@ CLAIMS = {
          "after the swap; trade-enable time; major-swap timestamp", "needs the swap-step hook; the tick groups spanned by a step are computed with the program's own tick math (C09 covers it); the toy model (AdaptiveFee.tla) abstracts the step to stopping anywhere up to the bounded target and takes the updated reference as given", "4 C14"),
  "C15": ("spec -> impl replay of a substitution matrix + trace validation: for every slot of every fund-moving/privileged instruction, single-account substitutions by accounts of the same "
          "kind; TLC checks ok => interface relations of module WpIface (vault of the pool for that token, mint, position/tick array/oracle of the pool, reward vault of the index, "
-         "token program owning the mint, memo program), two-hop distinct pools sharing the intermediate mint",
+         "token program owning the mint, memo program; the tick array must be the one that HOLDS the position's bound), coherent foreign-position substitutions (position + token account + owner's signature), two-hop distinct pools sharing the intermediate mint (incl. same-pool attempts at tick-array edges); one recorded known finding (known_findings.json)",
          "quick samples 10 substitutes per slot, thorough substitutes every candidate (exhaustive over the prepared world)", "4 C15"),
  "C16": ("TLC checks the transfer-fee contracts on a complete toy domain (MC_TransferFee) + evaluates ExclOK/InclOK on recorded calls of the Anchor and Pinocchio functions (boundary grid, "
          "both epoch schedules, fee extension at different TLV positions) + trace validation of swap_v2 / increase / decrease v2 on transfer-fee pools where the real Token-2022 "
@@ -48,9 +48,9 @@ CLAIMS = {
          "ParamsInBounds invariant of the specification on every projected state (mint admission runs, setter-bound probes, random histories incl. adaptive-fee pools)",
          "quick samples 2800 of the 85550 mint cases; thorough replays all of them; extension bodies are zero-filled with the right lengths (the admission rule reads types, freeze authority and default state only)", "4 C19"),
  "C05": ("TLC model checking of LiqSum/TickSums/TickInit on the toy instance + the same invariants evaluated by TLC on the projected state after every "
-         "recorded instruction (both tick-array encodings, Pinocchio handlers)", "as C01", "4 C05"),
+         "recorded instruction (both tick-array encodings, Pinocchio handlers, adaptive-fee pools, account-substitution probes); thorough tier: Apalache proves the invariants INDUCTIVE over the liquidity rules for unbounded integer magnitudes (LiqInd.tla: Init => IndInv, IndInv /\\ Next => IndInv')", "as C01; the Apalache obligation is a design-level proof (7 ticks, 3 positions, any integer liquidity), bound to the code through the same invariants on recorded states", "4 C05"),
  "C06": ("TLC model checking of StepsOK/SplitExact action properties on the toy instance + trace validation: per-step fee formula, protocol cut, growth "
-         "fold, trader/vault deltas, Traded event, protocol-fee collection of every recorded swap; two-hop swaps: each leg booked on its own pool", "as C01; needs the swap-step hook", "4 C06"),
+         "fold, trader/vault deltas, Traded event, protocol-fee collection of every recorded swap (pools with and without Token-2022 transfer fees); two-hop swaps: each leg booked on its own pool", "as C01; needs the swap-step hook", "4 C06"),
  "C07": ("TLC model checking of FeeUpper/FeeLower (ghost exact-share ledgers, accumulators started just below wrap-around) on the toy instance + trace validation: "
          "the spec accumulates per recorded swap step the exact pro-rata share of every position whose range contains the segment tick (2^128-scaled interval) and checks "
          "credited fees <= share and >= share - bounded rounding after every instruction", "the lower bound is 'bounded rounding' (one unit per in-range step / credit): a change that loses less is not reported", "4 C07"),
@@ -64,9 +64,9 @@ CLAIMS = {
          "byte equality is observed by the harness and asserted by the spec (encode/decode fidelity is outside what a TLA+ model adds); by-token-amounts and reposition have no Anchor twin", "4 C12"),
  "C13": ("TLC explores the abstract tick array over the boundary slot set completely and generates one behaviour per reachable content; each is replayed (with every outgoing update and "
          "query) into Anchor-fixed/Anchor-dynamic/Pinocchio-fixed/Pinocchio-dynamic arrays and the recorded results are validated by TLC against module WpTickArray (contents, errors, "
-         "bitmap, used length 148+112n, next-initialized-tick); random sequences over all 88 slots with full-width payloads", "exhaustive for the boundary slot set in the thorough tier; sampled in quick", "4 C13"),
+         "bitmap, used length 148+112n, next-initialized-tick); random sequences over all 88 slots with full-width payloads, sequences that fill the array completely; on recorded histories of pools mixing both encodings every array is well formed (length 148+112n / 9988) after every instruction", "exhaustive for the boundary slot set in the thorough tier; sampled in quick", "4 C13"),
  "C20": ("trace validation with a differential oracle stated by the spec (predicate C20Quote: the SDK's quote of the recorded pre-state equals the recorded program result step totals; "
-         "SDK answers on refused swaps only for partial fill or tick-array run-off) on every swap of recorded histories incl. adaptive-fee pools, + TLC evaluation of the conversion predicates "
+         "SDK answers on refused swaps only for partial fill or tick-array run-off - also at the level of the user-facing quotes, incl. swaps refused before the swap computation such as trading not yet enabled) on every swap of recorded histories incl. adaptive-fee pools, + TLC evaluation of the conversion predicates "
          "(tick<->price, amount deltas, token estimates for liquidity, next price when both answer, slippage floor/ceil) on recorded calls of SDK and program functions",
          "the SDK crate is compiled natively with a local shim of ethnum::U256 (the real ethnum crate is not in the offline registry; the shim mirrors its documented semantics incl. checked_shl); "
          "the TypeScript SDK's WASM build of the same crate is not executed; increase/decrease liquidity quotes are covered through try_get_token_estimates_from_liquidity only", "4 C20"),
@@ -98,7 +98,7 @@ m = {
  "engines": [{"name": "tlc-trace-validation", "path": "/verif/check", "serves_properties": sorted(CLAIMS),
               "kind_free_text": "TLA+ specification (spec/*.tla) + TLC (toy-scale exhaustive model checking and full-scale trace validation with a BigInt override) + Rust harness executing the real instruction handlers natively"}],
  "checks": checks,
- "notes": "see DESIGN.md section 0 (as built: what decides each property, deviations from the plan, the repaired SDK defect, false alarms corrected, which checks catch which seeded changes); known_findings.json lists repaired / known defects; seeded/ holds the property-breaking changes used to evaluate the checks (never applied to /repo)",
+ "notes": "every evidence file carries the situation-coverage table (coverage.situations, coverage.instruction_x_feature, coverage.errors_seen) tallied by TLC while validating; plans list situations that must occur (vacuous runs are tool errors). see DESIGN.md section 0 (as built: what decides each property, deviations from the plan, the repaired SDK defect, false alarms corrected, which checks catch which seeded changes); known_findings.json lists repaired / known defects; seeded/ holds the property-breaking changes used to evaluate the checks (never applied to /repo)",
  "not_applicable": [{"property_id": p["id"], "reason": "check not built yet (work in progress; planned per DESIGN.md section 4)"} for p in props if p["id"] not in CLAIMS],
 }
 json.dump(m, open(os.path.join(ROOT, "MANIFEST.json"), "w"), indent=1)
